@@ -14,8 +14,10 @@ From Coq Require Import Permutation.
 From CKT Require Import Common.Base Common.QSim Model.Sim Model.SimTree Proofs.SimP Proofs.SimTreeP.
 Close Scope Q_scope.
 
-(* tolerance 0: for every outcome k, the returned probability equals the total weight of the paths ending
-   in k; the returned keys are pairwise distinct, so the returned list IS the finite map *)
+(* tolerance 0 (NOT the source's 1e-16; for that see c13_outcome_bound_static / c13_tree_law).  No premise on p1:
+   this is an algebraic identity of the bookkeeping (it also holds for an 'instrument' with p1 = 3, giving negative
+   'probabilities'); it speaks of probabilities only together with 0 <= p1 <= 1, see c13_distribution.
+   For every outcome k, the returned value equals the total weight of the paths ending in k; the returned keys are pairwise distinct, so the returned list IS the finite map *)
 Theorem c13_pushforward :
   forall (gate state : Type) (apply : gate -> list nat -> state -> state) (p1 : state -> nat -> Q)
          (proj : state -> nat -> bool -> state) (flipx : state -> nat -> state) (tol : Q),
@@ -33,7 +35,8 @@ Theorem c13_expectation :
               forall phi : N -> Q, (ev phi out == ev phi (path_law apply p1 proj flipx p s0 0%N))%Q.
 Proof. exact simulate_expectation. Qed.
 
-(* tolerance 0: whatever is returned sums to one *)
+(* tolerance 0, no premise on p1 (algebraic, see above): whatever is returned sums to one.
+   At the source's tolerance only c13_total_bound_static holds: within 2 * (#measure+#reset) * tol of one. *)
 Theorem c13_total :
   forall (gate state : Type) (apply : gate -> list nat -> state -> state) (p1 : state -> nat -> Q)
          (proj : state -> nat -> bool -> state) (flipx : state -> nat -> state) (tol : Q),
@@ -82,8 +85,10 @@ Theorem c13_support :
   simulate apply p1 proj flipx tol s0 p = Ok out -> forall k pr, In (k, pr) out -> (0 < pr)%Q.
 Proof. exact simulate_support. Qed.
 
-(* a conditioned operation, or a non-measurement operation holding a classical bit, anywhere in the
-   program: ValueError, never a result (any instrument, any tolerance) *)
+(* GIVEN the classification of instructions into constructors (done by the harness: PCond = condition_bits
+   non-empty, PGateWithClbit = other operation with clbits; the code's detection itself is tied by the correspondence
+   only): such an instruction anywhere in the program gives ValueError, never a result, and nothing before it
+   raises another exception (any instrument, any tolerance) *)
 Theorem c13_refuses :
   forall (gate state : Type) (apply : gate -> list nat -> state -> state) (p1 : state -> nat -> Q)
          (proj : state -> nat -> bool -> state) (flipx : state -> nat -> state) (tol : Q)
@@ -91,16 +96,19 @@ Theorem c13_refuses :
   existsb refusing p = true -> simulate apply p1 proj flipx tol s0 p = Refused.
 Proof. exact simulate_refuses. Qed.
 
-(* the deletion bookkeeping (`del current[k][i]` in reversed recording order) never goes out of range *)
-Theorem c13_never_crashes :
+(* the model's ONLY source of Crashed is `del current[k][i]` going out of range (in reversed recording order): it
+   never does.  Exceptions raised inside Qiskit are not modelled. *)
+Theorem c13_deletes_in_range :
   forall (gate state : Type) (apply : gate -> list nat -> state -> state) (p1 : state -> nat -> Q)
          (proj : state -> nat -> bool -> state) (flipx : state -> nat -> state) (tol : Q)
          (s0 : state) (p : prog gate),
   simulate apply p1 proj flipx tol s0 p <> Crashed.
 Proof. exact simulate_never_crashes. Qed.
 
-(* ExactSampler: BaseSamplerV1.run validates first (Qiskit), then the same function *)
-Theorem c13_sampler :
+(* DEFINITIONAL (an unfolding of Model.sampler, which restates Qiskit's BaseSamplerV1 validation -- an assumption
+   monitored as oracle contract, not a result): ExactSampler = validation, then the same function.  The composed
+   statement is c13_sampler_answer. *)
+Theorem c13_sampler_def :
   forall (gate state : Type) (apply : gate -> list nat -> state -> state) (p1 : state -> nat -> Q)
          (proj : state -> nat -> bool -> state) (flipx : state -> nat -> state) (tol : Q)
          (ncl : nat) (s0 : state) (p : prog gate),
@@ -115,13 +123,17 @@ Qed.
 From CKT Require Import Extracted.Facts.
 From Coq Require Import String.
 
-Theorem c13_qsim_instance : forall s q, (0 <= qp1 s q <= 1)%Q.
+(* true BY THE CLAMP in the definition of qp1 (for every list of amplitudes, even the zero vector): it discharges the
+   premise 0 <= p1 <= 1 of the general theorems for the QSim instance, and says nothing about qp1 being Born's
+   probability -- that is c13_qsim_born_step (3), conditional on the per-state audit bit *)
+Theorem c13_qsim_p1_clamped : forall s q, (0 <= qp1 s q <= 1)%Q.
 Proof. exact qp1_range. Qed.
 
 Definition sites_of (f : string) : nat :=
   match find (fun p => String.eqb (fst p) f) value_error_sites with Some p => snd p | None => 0 end.
 
-(* tie to the source: the tolerance of the model is the module constant; it is non-negative and tiny
+(* tie to the source: the tolerance of the model is the exact DECIMAL value of the literal `1e-16` in the source
+   (1/10^16; the binary64 number Python uses is smaller by about 2e-33 -- immaterial, rounding is not modelled); it is non-negative and tiny
    (so that the truncation bound is far below the 1e-9 used by the oracle); both truncation tests have the
    modelled shape np.isclose(<name>, 0, atol=_TOLERANCE); the function still has (at least) the two modelled
    refusals -- an ADDED refusal is left to the correspondence (it shows up there iff it hits a circuit of the
@@ -150,6 +162,61 @@ Proof.
   apply (simulate_outcome_bound qgate vec qapply qp1 qproj qflipx sim_tolerance qp1_range (proj1 c13_facts)).
 Qed.
 
+(* ---- A-PRIORI truncation bounds (no ghost counter): any tolerance >= 0, 0 <= p1 <= 1.  Each measure/reset
+   instruction loses at most 2 * tol of mass in total (every live branch at most 2 * tol * its weight, the live
+   weights sum to <= 1).  With m = count_nonunitary p = #measure + #reset of the program: ---- *)
+Theorem c13_outcome_bound_static :
+  forall (gate state : Type) (apply : gate -> list nat -> state -> state) (p1 : state -> nat -> Q)
+         (proj : state -> nat -> bool -> state) (flipx : state -> nat -> state) (tol : Q),
+  (forall s q, 0 <= p1 s q <= 1)%Q -> (0 <= tol)%Q -> forall (s0 : state) (p : prog gate) out,
+  simulate apply p1 proj flipx tol s0 p = Ok out ->
+  forall k, (lookup (path_law apply p1 proj flipx p s0 0%N) k - (2 # 1) * inject_Z (Z.of_nat (count_nonunitary p)) * tol
+             <= lookup out k <= lookup (path_law apply p1 proj flipx p s0 0%N) k)%Q.
+Proof. exact simulate_outcome_bound_static. Qed.
+
+Theorem c13_event_bound_static :
+  forall (gate state : Type) (apply : gate -> list nat -> state -> state) (p1 : state -> nat -> Q)
+         (proj : state -> nat -> bool -> state) (flipx : state -> nat -> state) (tol : Q),
+  (forall s q, 0 <= p1 s q <= 1)%Q -> (0 <= tol)%Q -> forall phi : N -> Q, (forall k, 0 <= phi k <= 1)%Q ->
+  forall (s0 : state) (p : prog gate) out, simulate apply p1 proj flipx tol s0 p = Ok out ->
+  (ev phi (path_law apply p1 proj flipx p s0 0%N) - (2 # 1) * inject_Z (Z.of_nat (count_nonunitary p)) * tol
+   <= ev phi out <= ev phi (path_law apply p1 proj flipx p s0 0%N))%Q.
+Proof. exact simulate_event_bound_static. Qed.
+
+(* "summing to one" at the source's tolerance: within 2 m tol of one, never above *)
+Theorem c13_total_bound_static :
+  forall (gate state : Type) (apply : gate -> list nat -> state -> state) (p1 : state -> nat -> Q)
+         (proj : state -> nat -> bool -> state) (flipx : state -> nat -> state) (tol : Q),
+  (forall s q, 0 <= p1 s q <= 1)%Q -> (0 <= tol)%Q -> forall (s0 : state) (p : prog gate) out,
+  simulate apply p1 proj flipx tol s0 p = Ok out ->
+  (1 - (2 # 1) * inject_Z (Z.of_nat (count_nonunitary p)) * tol <= total out <= 1)%Q.
+Proof. exact simulate_total_bound_static. Qed.
+
+(* tolerance 0 AND p1 a probability: the answer IS a probability distribution (distinct outcomes, every listed value
+   in (0,1], total one) and equals the path law *)
+Theorem c13_distribution :
+  forall (gate state : Type) (apply : gate -> list nat -> state -> state) (p1 : state -> nat -> Q)
+         (proj : state -> nat -> bool -> state) (flipx : state -> nat -> state) (tol : Q),
+  (forall s q, 0 <= p1 s q <= 1)%Q -> (tol == 0)%Q -> forall (s0 : state) (p : prog gate), existsb refusing p = false ->
+  exists out, simulate apply p1 proj flipx tol s0 p = Ok out /\ NoDup (map fst out) /\
+    (forall k pr, In (k, pr) out -> 0 < pr <= 1)%Q /\ (total out == 1)%Q /\
+    forall k, (lookup out k == lookup (path_law apply p1 proj flipx p s0 0%N) k)%Q.
+Proof. exact simulate_distribution. Qed.
+
+(* ExactSampler for ONE circuit, composed down to the path law.  Premises ncl <> 0 and "has a Measure" are Qiskit's
+   BaseSamplerV1 validation (modelled, monitored): for circuits WITHOUT classical bits or WITHOUT a Measure -- which the
+   property's quantifier includes -- ExactSampler().run raises ValueError inside Qiskit before the package's code runs
+   (only simulate_statevector_outcomes answers them), so the sampler clause is NOT claimed for those circuits. *)
+Theorem c13_sampler_answer :
+  forall (gate state : Type) (apply : gate -> list nat -> state -> state) (p1 : state -> nat -> Q)
+         (proj : state -> nat -> bool -> state) (flipx : state -> nat -> state) (tol : Q),
+  (forall s q, 0 <= p1 s q <= 1)%Q -> (0 <= tol)%Q -> forall ncl (s0 : state) (p : prog gate),
+  ncl <> 0 -> existsb is_measure p = true -> existsb refusing p = false ->
+  exists out, sampler apply p1 proj flipx tol ncl s0 p = Ok out /\ NoDup (map fst out) /\
+    forall k, (lookup (path_law apply p1 proj flipx p s0 0%N) k - (2 # 1) * inject_Z (Z.of_nat (count_nonunitary p)) * tol
+               <= lookup out k <= lookup (path_law apply p1 proj flipx p s0 0%N) k)%Q.
+Proof. exact sampler_answer. Qed.
+
 (* ================= extension: leaf-by-leaf refinement, sampler wrapper, Born step of QSim ================= *)
 
 (* ANY instrument, ANY tolerance: when the loop ends, the entries (outcome, (prob, sv)) of the dictionary are -- as a
@@ -167,8 +234,9 @@ Theorem c13_branches :
             Permutation (dict_items d) (tree apply p1 proj flipx tol p 0%N 1%Q s0).
 Proof. exact simulate_tree. Qed.
 
-(* hence at ANY tolerance (in particular the source's 1e-16, no hypothesis on p1) the returned finite map is
-   EXACTLY the law of the truncated tree, for every outcome and every function of the outcome *)
+(* hence at ANY tolerance (no hypothesis on p1) the returned finite map equals the law of the tree CUT BY THE SAME
+   isclose0 RULE -- a specification of which branches are cut, not evidence that cutting is harmless: the distance to
+   the true (uncut) path law is bounded only by c13_outcome_bound_static *)
 Theorem c13_tree_law :
   forall (gate state : Type) (apply : gate -> list nat -> state -> state) (p1 : state -> nat -> Q)
          (proj : state -> nat -> bool -> state) (flipx : state -> nat -> state) (tol : Q)
@@ -200,18 +268,22 @@ Theorem c13_sampler_run_refuses :
   sampler_run apply p1 proj flipx tol cs = Refused.
 Proof. exact sampler_run_refuses. Qed.
 
-Theorem c13_sampler_run_single :
+Theorem c13_sampler_run_single_def :
   forall (gate state : Type) (apply : gate -> list nat -> state -> state) (p1 : state -> nat -> Q)
          (proj : state -> nat -> bool -> state) (flipx : state -> nat -> state) (tol : Q) ncl s0 (p : prog gate),
   sampler_run apply p1 proj flipx tol [(ncl, s0, p)] = res_map (fun x => [x]) (sampler apply p1 proj flipx tol ncl s0 p).
 Proof. exact sampler_run_single. Qed.
 
 (* The measurement step of the exact simulator IS the Born rule of the vector it holds, for every vector and qubit:
-   (1) the post-measurement vector qproj v q b has squared norm |P_b v|^2 = the sum of |amplitude|^2 over the indices
-       whose bit q is b;  (2) |P_0 v|^2 + |P_1 v|^2 = |v|^2 exactly in Q(sqrt2);  (3) whenever the audit bit
+   (1) qproj v q b (the projection by definition: it zeroes the other amplitudes) has squared norm |P_b v|^2 = the sum
+       of |amplitude|^2 over the indices whose bit q is b;  (2) |P_0 v|^2 + |P_1 v|^2 = |v|^2 exactly in Q(sqrt2);  (3) whenever the audit bit
        qp1_is_exact holds (evaluated by the correspondence on every measured state), the instrument's p1 is the exact
-       quotient |P_1 v|^2 / |v|^2, unclamped, with vanishing sqrt2-part;  (4) q2div is division in Q(sqrt2).
-   NOT proved: that the gate actions qapply are unitary / equal to Qiskit's matrices (compared per case). *)
+       quotient |P_1 v|^2 / |v|^2, unclamped, with vanishing sqrt2-part;  (4) q2div is division in Q(sqrt2) whenever c^2 - 2 d^2 <> 0 for the divisor c + d sqrt2 (true for every non-zero
+       rational pair since sqrt2 is irrational -- that fact is not proved here).
+   NOT proved: that the gate actions qapply are unitary / equal to Qiskit's matrices (compared per case; the checker
+   additionally tests per case that every gate application preserves the squared norm and that the program is
+   well formed, Model.SimTree.wf_qprog -- on ill-formed operands QSim returns SOME vector and all c13_qsim_*
+   statements, though true, are meaningless). *)
 Theorem c13_qsim_born_step : forall (v : vec) (q : nat),
   (forall b, norm2 (qproj v q b) = norm2_bit v q b) /\
   ((fst (q2add (norm2_bit v q false) (norm2_bit v q true)) == fst (norm2 v))%Q /\
@@ -224,6 +296,18 @@ Theorem c13_qsim_born_step : forall (v : vec) (q : nat),
 Proof.
   intros v q. split; [intros b; apply qproj_norm|]. split; [apply norm2_complete|].
   split; [apply qp1_exact_value|]. intros x y; apply q2div_spec.
+Qed.
+
+(* a-priori form on the exact simulator at the source's tolerance, for WELL-FORMED programs (operand indices in range,
+   distinct operands, gate arity; the premise is not used by the proof -- it delimits where the QSim instance means
+   anything): every outcome at most 2 * (#measure + #reset) * 1e-16 below its path-law value, never above *)
+Theorem c13_qsim_outcome_bound_static : forall nq ncl (p : qprog) out, wf_qprog nq ncl p = true ->
+  qsimulate sim_tolerance nq p = Ok out ->
+  forall k, (lookup (qpath nq p) k - (2 # 1) * inject_Z (Z.of_nat (count_nonunitary p)) * sim_tolerance <= lookup out k
+             <= lookup (qpath nq p) k)%Q.
+Proof.
+  intros nq ncl p out _. unfold qsimulate, qpath.
+  apply (simulate_outcome_bound_static qgate vec qapply qp1 qproj qflipx sim_tolerance qp1_range (proj1 c13_facts)).
 Qed.
 
 (* ---- non-vacuity ---- *)
@@ -288,6 +372,31 @@ Definition ex_bell_vec : vec := qapply Gcx [0; 1] (qapply Gh [0] (init_vec 2)).
 Example c13_ex_born_step : qp1_is_exact ex_bell_vec 1 = true /\ Qeq (qp1 ex_bell_vec 1) (1 # 2).
 Proof. vm_compute. split; reflexivity. Qed.
 
+(* tolerance 0 with a reset (c13_pushforward / c13_distribution): h; measure; reset; h; measure into the same bit *)
+Definition ex_reset : qprog := [PGate Gh [0]; PMeasure 0 0; PReset 0; PGate Gh [0]; PMeasure 0 0].
+Example c13_ex_reset_tol0 :
+  existsb refusing ex_reset = false /\ existsb is_measure ex_reset = true /\ wf_qprog 1 1 ex_reset = true /\
+  canon (qsimulate 0 1 ex_reset) = Ok [(0%N, (1 # 2)%Q); (1%N, (1 # 2)%Q)] /\
+  List.length (qpath 1 ex_reset) = 8 /\ Qeq (lookup (qpath 1 ex_reset) 1) (1 # 2).
+Proof. vm_compute. repeat split; reflexivity. Qed.
+
+(* the regime where the truncation bound BITES: a toy instrument whose 1-outcome has probability 1e-17 < tol = 1e-16.
+   Two measurements: the 1-children are cut, mass is really lost (total < 1, outcome 1 missing although its path-law
+   probability is positive), and the loss is within the a-priori bound 2 * 2 * tol. *)
+Definition toy_p1 (_ : unit) (_ : nat) : Q := (1 # 100000000000000000)%Q.
+Definition toy_sim (p : prog unit) := simulate (fun _ _ s => s) toy_p1 (fun s _ _ => s) (fun s _ => s) sim_tolerance tt p.
+Definition toy_path (p : prog unit) := path_law (fun _ _ s => s) toy_p1 (fun s _ _ => s) (fun s _ => s) p tt 0%N.
+Definition toy_prog : prog unit := [PMeasure 0 0; PMeasure 0 1].
+Example c13_ex_truncation_bites :
+  (forall s q, 0 <= toy_p1 s q <= 1)%Q /\ count_nonunitary toy_prog = 2 /\
+  exists w, toy_sim toy_prog = Ok [(0%N, w)] /\ (w < 1)%Q /\ (1 - (2 # 1) * (2 # 1) * sim_tolerance <= w)%Q /\
+            (0 < lookup (toy_path toy_prog) 1)%Q /\ (lookup [(0%N, w)] 1 == 0)%Q /\
+            (lookup (toy_path toy_prog) 1 - (2 # 1) * (2 # 1) * sim_tolerance <= 0)%Q.
+Proof.
+  split; [intros; unfold toy_p1; split; unfold Qle; simpl; lia|]. split; [reflexivity|].
+  eexists. split; [vm_compute; reflexivity|]. vm_compute. repeat split; intros; discriminate.
+Qed.
+
 (* deterministic branch: one child truncated at every measurement, nothing lost *)
 Example c13_ex_pruned :
   canon (qsimulate sim_tolerance 1 [PGate Gx [0]; PMeasure 0 2; PReset 0; PMeasure 0 0]) = Ok [(4%N, 1%Q)] /\
@@ -305,11 +414,17 @@ Print Assumptions c13_total.
 Print Assumptions c13_pruned_bound.
 Print Assumptions c13_outcome_bound.
 Print Assumptions c13_event_bound.
+Print Assumptions c13_outcome_bound_static.
+Print Assumptions c13_event_bound_static.
+Print Assumptions c13_total_bound_static.
+Print Assumptions c13_distribution.
+Print Assumptions c13_sampler_answer.
+Print Assumptions c13_qsim_outcome_bound_static.
 Print Assumptions c13_support.
 Print Assumptions c13_refuses.
-Print Assumptions c13_never_crashes.
-Print Assumptions c13_sampler.
-Print Assumptions c13_qsim_instance.
+Print Assumptions c13_deletes_in_range.
+Print Assumptions c13_sampler_def.
+Print Assumptions c13_qsim_p1_clamped.
 Print Assumptions c13_facts.
 Print Assumptions c13_qsim_bound.
 Print Assumptions c13_qsim_outcome_bound.
@@ -317,5 +432,5 @@ Print Assumptions c13_branches.
 Print Assumptions c13_tree_law.
 Print Assumptions c13_sampler_run_ok.
 Print Assumptions c13_sampler_run_refuses.
-Print Assumptions c13_sampler_run_single.
+Print Assumptions c13_sampler_run_single_def.
 Print Assumptions c13_qsim_born_step.
